@@ -38,12 +38,20 @@ PREFIXES = {
     "after_lot_paren": "T154N-R97W Sec 14: Lot 1 (", "after_lot_bracket": "T154N-R97W Sec 14: Lots 1 - 3 [", "twp_no_dir": "Township 154",
     "t_no_dir": "T154", "twp_abbr_no_dir": "Twp. 154", "twprge_no_ew": "T154N-R97", "after_range_word": "T154N-R", "sec_word": "T154N-R97W Sec",
     "after_sec_of": "NE/4 of Section 14 of", "after_through": "T154N-R97W Sec 14: Lots 1 -", "after_acreage": "T154N-R97W Sec 14: Lot 1(40.0)",
+    # a second section reference followed by a separator / connective (what comes next decides whether a Twp/Rge belongs to it)
+    "after_sec2_comma": "T154N-R97W Sec 14: NE/4, Sec 15,", "after_sec2_of": "T154N-R97W Sec 14: NE/4, Sec 15 of", "after_sec2_in": "T154N-R97W Sec 14: NE/4; Sec 15 in",
+    # the wording that raises warnings (each kind has its own pattern, run on every block)
+    "after_less": "T154N-R97W Sec 14: NE/4, less", "after_less_and": "T154N-R97W Sec 14: NE/4, less and", "after_except": "T154N-R97W Sec 14: NE/4 except",
+    "after_insofar": "T154N-R97W Sec 14: NE/4, insofar", "after_including": "T154N-R97W Sec 14: NE/4, including", "after_limited": "T154N-R97W Sec 14: NE/4, limited",
+    "after_surface": "T154N-R97W Sec 14: NE/4, from the surface", "after_depths": "T154N-R97W Sec 14: NE/4, depths", "after_well": "T154N-R97W Sec 14: NE/4, the wellbore",
 }
 ATOMS = [" ", "\t", "\n", "\r", ".", ",", ";", ":", "-", "–", "—", "/", "&", "|", "_", "~", "(", ")", "[", "]", "and", "to", "thru", "through",
          "of", "the", "all", "in", "Sec", "Section", "§", "Lot", "Lots", "L", "T", "R", "N", "S", "E", "W", "NE", "N/2", "NE/4", "½", "¼",
          "1", "2", "14", "154", "P", "M", "P.M.", "Principal", "Meridian", "o", "f", "t", "h", "e", "North", "Half", "Quarter", "One", "x",
-         "T154N-R97W", "Sec 14", "Sec 14:", "Lot 1", "(40.0)", "1/2", "1/4", "s", "th", "0", "said", "within"]
-SUFFIXES = ["", "x", ": NE/4", " 5th P.M.", " Sec 15: W/2", "\nT155N-R97W Sec 1: ALL", " 3"]
+         "T154N-R97W", "Sec 14", "Sec 14:", "Lot 1", "(40.0)", "1/2", "1/4", "s", "th", "0", "said", "within",
+         # mixed whitespace (survives a single pass of whitespace reduction as a run), warning vocabulary
+         " \t", "\t ", " \n", "\n ", "less", "except", "save", "as", "so", "far", "including", "limited", "base", "top", "well", "bore", "down"]
+SUFFIXES = ["", "x", ": NE/4", " 5th P.M.", " Sec 15: W/2", "\nT155N-R97W Sec 1: ALL", " 3", " x\nT155N-R97W Sec 1: ALL"]
 
 
 def pump(prefix, unit, suffix, frac):
@@ -59,6 +67,8 @@ def enum_pump(tier):
         for a in ATOMS:
             for unit in ([a, a + " "] if a.strip() else [a]):
                 for si, suf in enumerate(SUFFIXES):
+                    if tier == "quick" and si not in (0, 2, 4, 5, 7):
+                        continue
                     for frac in ((1, 2, 5) if tier == "thorough" else (1, 3)):
                         cases.append({"prefix": pname, "unit": unit, "suffix": suf, "frac": frac})
     return cases
@@ -85,7 +95,7 @@ def enum_tract_pump(tier):
 
 # the same dead-space / connective atoms under each optional parse mode (those modes run patterns of their own) -------------
 MODE_CONFIGS = ["segment", "sec_within", "sec_colon_cautious", "sec_colon_required", "ocr_scrub", "clean_qq", "segment,sec_within", "desc_STR", "S_desc_TR"]
-MODE_ATOMS = [" ", "\t", "\n", ".", ",", ";", ":", "-", "–", "/", "&", "_", "(", "[", "and", "to", "thru", "of", "the", "Sec", "Lot", "N", "NE", "1", "14", "T154N-R97W", "x", "o", "l", "S", "I"]
+MODE_ATOMS = [" ", "\t", "\n", " \t", ".", ",", ";", ":", "-", "–", "/", "&", "_", "(", "[", "and", "to", "thru", "of", "the", "Sec", "Lot", "N", "NE", "1", "14", "T154N-R97W", "x", "o", "l", "S", "I"]
 MODE_SUFFIXES = ["", ": NE/4", "\nT155N-R97W Sec 1: ALL", " x"]
 TRACT_MODE_CONFIGS = ["clean_qq", "suppress_lot_divs", "break_halves,qq_depth_max.3", "qq_depth.1"]
 
